@@ -1,5 +1,6 @@
 import HawkModel.ArrLemmas
 import HawkModel.HeapLemmas
+import HawkModel.HeapPosLemmas
 /-!
 # C19 — Sparse arrays stay consistent and every operation terminates
 
@@ -356,5 +357,59 @@ example : (insert ex64 128 7 []).ret = .ok 128 := insert_succeeds ex64 128 7 ⟨
 example : read (upsert ex64 128 7 []).arr 128 = some 7 :=
   (upsert_read ex64 128 7 [] ⟨rfl, rfl, by decide⟩
     (by unfold upsert; rw [if_neg (by decide)]; exact insert_succeeds ex64 128 7 ⟨rfl, rfl, by decide⟩)).1
+
+/-! ## heap with position back-pointers (`heap_pos_offset`): after every history each item's position field names
+    the slot it is in, and the keys evolve exactly as in the key-only heap above (so the order theorem carries over) -/
+
+/-- the same histories on items `(key, pos)`; `arr->heap_pos_offset` is set -/
+def pstep (l : List Item) : HOp → List Item
+  | .push k => pushheapP l k
+  | .del i => (deleteheapP l i).1
+  | .upd i k => (updateheapP l i k).1
+
+/-- refinement: forgetting the position fields, the heap with back-pointers is the heap without -/
+theorem pstep_refines (l : List Item) (op : HOp) : keys (pstep l op) = hstep (keys l) op := by
+  cases op with
+  | push k => exact pushheapP_keys l k
+  | del i => exact (deleteheapP_keys l i).1
+  | upd i k => exact (updateheapP_keys l i k).1
+
+/-- the destroyed item reported to the freeer is the same in both -/
+theorem pstep_freed (l : List Item) (i k : Nat) :
+    (deleteheapP l i).2 = (deleteheap (keys l) i).2 ∧ (updateheapP l i k).2 = (updateheap (keys l) i k).2 :=
+  ⟨(deleteheapP_keys l i).2, (updateheapP_keys l i k).2⟩
+
+theorem pstep_pos (l : List Item) (op : HOp) (h : PosOk l) : PosOk (pstep l op) := by
+  cases op with
+  | push k => exact pushheapP_posOk l k h
+  | del i => exact deleteheapP_posOk l i h
+  | upd i k => exact updateheapP_posOk l i k h
+
+theorem pfold_keys (ops : List HOp) (l : List Item) : keys (ops.foldl pstep l) = ops.foldl hstep (keys l) := by
+  induction ops generalizing l with
+  | nil => rfl
+  | cons op ops ih => simp only [List.foldl_cons]; rw [ih, pstep_refines]
+
+theorem pfold_pos (ops : List HOp) (l : List Item) (h : PosOk l) : PosOk (ops.foldl pstep l) := by
+  induction ops generalizing l with
+  | nil => exact h
+  | cons op ops ih => exact ih _ (pstep_pos l op h)
+
+/-- after every history: every item knows its slot, and the keys are in heap order -/
+theorem reachable_pos_heap (ops : List HOp) :
+    PosOk (ops.foldl pstep []) ∧ HeapOrd (keys (ops.foldl pstep [])) := by
+  refine ⟨pfold_pos ops [] (by intro i hi; simp at hi), ?_⟩
+  rw [pfold_keys]; exact reachable_heap ops
+
+/-- non-vacuity: a three-item heap whose back-pointers are right; deleting the root really moves an item (the last
+    one goes to slot 0 and its position field is rewritten from 2 to 0) and the theorem applies to it -/
+theorem ex_pos : PosOk [(9, 0), (5, 1), (7, 2)] := by
+  intro i hi
+  have : i = 0 ∨ i = 1 ∨ i = 2 := by simp at hi; omega
+  rcases this with h | h | h <;> subst h <;> rfl
+example : pstep [(9, 0), (5, 1), (7, 2)] (.del 0) = [(7, 0), (5, 1)] := by
+  simp [pstep, deleteheapP, stamp, siftDownP, cmp]
+  rw [siftDownLoopP]; simp [pickChildP, cmp, stamp]
+example : PosOk (pstep [(9, 0), (5, 1), (7, 2)] (.del 0)) := pstep_pos _ _ ex_pos
 
 end Hawk.Arr
